@@ -7,10 +7,10 @@ partial operations on the read path are traced at their call sites (module globa
 shadowed for the duration of one case: is_ssl_handshake, HttpParser.execute, wrappers.Request, int) and the
 recorded answers instantiate the oracles of Model/HttpRobust.v; the correspondence compares, per operation, the
 sequence of call sites consulted, the effects (reject / response / close / dispatch) and the membership of the socket
-in HTTP._buffers / HTTP._clients.  The oracle reads the property statement directly off the bytes written to the
+in the component's per-connection tables (found behaviourally, not by attribute name: see `membership`).  The oracle reads the property statement directly off the bytes written to the
 socket (decoded by http.client), the events, stderr and the tables, and knows nothing of the model.
 """
-import sys, os, io, re, socket, http.client
+import sys, os, io, re, socket, collections, http.client
 sys.path.insert(0, os.path.dirname(os.path.abspath(__file__)))
 import common
 from common import Prop
@@ -119,11 +119,13 @@ class Probe(BaseComponent):
     def _e(self, etype, evalue, tb, handler=None, fevent=None):
         self.log.append(['exception', etype.__name__, getattr(fevent, 'name', None)])
         Trace.calls.append(['EXC', getattr(fevent, 'c14_index', -1)])
+        Trace.phase = 'exc'
 
     @handler('read', priority=100)
     def _rd(self, event, sock, data):
         # bursts: everything the component consults until the next marker belongs to this read
         Trace.calls.append(['READ', getattr(event, 'c14_index', -1)])
+        Trace.phase = 'read'
 
     @handler('ping')
     def _p(self):
@@ -152,6 +154,7 @@ class Trace:
     req = None          # the Request built by the main path in this operation
     acc = False         # parser accessors were evaluated for a Request(...) call in this operation
     pcode = None        # head_code of the parser after the execute() of this operation
+    phase = 'read'      # 'read' while a read event is being handled, 'exc' while an exception event is
     built = []          # every Request the component built in this case (kept alive)
 
 
@@ -222,6 +225,40 @@ def t_int(*a, **k):
     return r
 
 
+# ----------------------------------------------------------------------------- per-connection state, name-independent
+def _is_parser(v):
+    return isinstance(v, RealParser) or (hasattr(v, 'execute') and hasattr(v, 'is_headers_complete'))
+
+
+def _is_pair(v):
+    return isinstance(v, (tuple, list)) and len(v) == 2 and \
+        (isinstance(v[0], RealWrappers.Request) or isinstance(v[1], RealWrappers.Response))
+
+
+def membership(component, sock):
+    """-> (in the parser table, in the request/response table, anywhere, the pair if any).
+    The tables are whatever container attributes of the component hold HttpParser instances resp. (request, response)
+    pairs; `anywhere` = the socket is a key / member of ANY container attribute (the 'no state retained' clause)."""
+    in_p = in_c = anywhere = False
+    pair = None
+    for name, val in list(vars(component).items()):
+        try:
+            if isinstance(val, dict):
+                if sock in val:
+                    anywhere = True
+                    v = val[sock]
+                    if _is_parser(v):
+                        in_p = True
+                    elif _is_pair(v):
+                        in_c, pair = True, v
+            elif isinstance(val, (list, set, frozenset, tuple, collections.deque)):
+                if any(x is sock for x in val):
+                    anywhere = True
+        except Exception:
+            continue
+    return in_p, in_c, anywhere, pair
+
+
 class WrappersShim:
     """stands for the module circuits.web.wrappers inside circuits.web.http"""
 
@@ -230,8 +267,9 @@ class WrappersShim:
 
     @staticmethod
     def Request(*a, **k):
-        site = sys._getframe(1).f_code.co_name
-        tag = 'excreq' if site == '_on_exception' else ('req' if 'headers' in k else 'errreq')
+        # call site: while an exception event is being handled -> the exception handler's Request; else, in a read handler,
+        # with the parsed header table -> the main path, without -> the 400 path (no handler / helper names involved)
+        tag = 'excreq' if Trace.phase == 'exc' else ('req' if k.get('headers') is not None else 'errreq')
         try:
             r = RealWrappers.Request(*a, **k)
         except BaseException:
@@ -374,7 +412,7 @@ def run_case(case):
             s = socks.setdefault(n, FakeSock(n))
             n0 = len(probe.log)
             Trace.calls, Trace.req, Trace.acc, Trace.pcode = [], None, False, None
-            held = getattr(httpc, '_clients', {}).get(s)
+            held = membership(httpc, s)[3]
             if kind == 'r':
                 m.fire(read(s, o[2].encode('latin-1')), 'web')
             else:
@@ -438,8 +476,7 @@ def run_case(case):
                         if e2[0] == 2:
                             app = e2[1]
                             break
-            bufs = getattr(httpc, '_buffers', {})
-            clis = getattr(httpc, '_clients', {})
+            in_p, in_c, in_any, _ = membership(httpc, s)
             # bytes the connection's parser has been given since it was created (a new parser is created exactly when the
             # TLS test is consulted); compared with Model classify while short and while no fault is injected
             head = None
@@ -449,7 +486,7 @@ def run_case(case):
                 if Trace.pcode is not None and len(seen_bytes[n]) <= 300 and case.get('gone') is None and not poisoned.get(n):
                     head = [l1(seen_bytes[n]), Trace.pcode]
                 if Trace.pcode in (1, 2, 9):
-                    poisoned[n] = s in bufs      # a parser that survives its own error is outside classify
+                    poisoned[n] = in_p      # a parser that survives its own error is outside classify
                 elif fresh:
                     poisoned[n] = False
             else:
@@ -458,7 +495,7 @@ def run_case(case):
             steps.append({'head': head,'op': [kind, n] + ([o[2]] if kind == 'r' else []) + (['auto'] if kind == 'd' and len(o) > 2 else []),
                           'tag': o[3] if kind == 'r' and len(o) > 3 else '',
                           'calls': Trace.calls, 'path': pa, 'app': app,
-                          'effs': effs[:40], 'n_effs': len(effs), 'state': [s in bufs, s in clis], 'problems': problems,
+                          'effs': effs[:40], 'n_effs': len(effs), 'state': [in_p, in_c], 'anywhere': in_any, 'problems': problems,
                           'wrote': len(wbytes)})
             if stuck:
                 break                                   # the loop does not come to rest: nothing more to learn
@@ -471,8 +508,8 @@ def run_case(case):
             drain(m)
             pong = ['pong'] in probe.log[n0:]
         extra = [r[0] for r in probe.log[n0:] if r[0] != 'pong'][:10]
-        final = [len(getattr(httpc, '_buffers', {})), len(getattr(httpc, '_clients', {}))]
-        open_socks = sorted(n for n, s in socks.items() if s in getattr(httpc, '_buffers', {}) or s in getattr(httpc, '_clients', {}))
+        final = [len([1 for s in socks.values() if membership(httpc, s)[0]]), len([1 for s in socks.values() if membership(httpc, s)[1]])]
+        open_socks = sorted(n for n, s in socks.items() if membership(httpc, s)[2])
     finally:
         sys.stderr = old_err
         uninstall()
@@ -583,8 +620,8 @@ def run_burst(case):
             pong = ['pong'] in probe.log[n0:]
         gone = [o[1] for o in case['ops'] if o[0] == 'd']
         retained = sorted(n for n, s in socks.items() if n in gone and
-                          (s in getattr(httpc, '_buffers', {}) or s in getattr(httpc, '_clients', {})))
-        state = {str(n): [s in getattr(httpc, '_buffers', {}), s in getattr(httpc, '_clients', {})] for n, s in socks.items()}
+                          membership(httpc, s)[2])
+        state = {str(n): list(membership(httpc, s)[:2]) for n, s in socks.items()}
     finally:
         sys.stderr = old_err
         uninstall()
@@ -781,6 +818,15 @@ def cut(rng, data, maxcuts=2):
     return out
 
 
+def cut_n(rng, data, k):
+    pts = sorted(set(rng.randrange(1, len(data)) for _ in range(k)))
+    out, prev = [], 0
+    for p in pts + [len(data)]:
+        out.append(data[prev:p])
+        prev = p
+    return out
+
+
 def chunked_tail_start(data):
     i = data.find(b'\r\n0\r\n')
     return len(data) if i < 0 else i + 2
@@ -840,6 +886,40 @@ class C14(Prop):
                 exp = 'incomplete' if off < min(tail, len(data)) else 'any'
                 cases.append({'secure': False, 'cls': 'truncate-' + kind, 'expect': exp,
                               'ops': [['r', 0, l1(data[:off]), 'mut'], ['d', 0]]})
+        # ONE well-formed message with a body, delivered completely in two or more reads: every two-piece cut (so also the cuts
+        # exactly behind a chunk's CRLF and inside the last-chunk line), byte at a time, random multi-cuts; and its strict
+        # prefixes ending at the chunk boundaries followed by a disconnect.  One message => at most one dispatch-or-rejection and
+        # at most one response over the whole connection, and no dispatch before the message is complete.
+        body = bytes(rng.choice(b'abcxyz0189') for _ in range(rng.randint(5, 9)))
+        hosts = [('Host', 'a')]
+        k1, k2 = 1 + len(body) // 3, 1 + 2 * len(body) // 3
+        wf = [(req_bytes(rng.choice(['POST', 'PUT']), '/echo', headers=hosts + [('Transfer-Encoding', 'chunked')],
+                         body=chunked([body[:k1], body[k1:k2], body[k2:]])), 'wf-chunked'),
+              (req_bytes('POST', '/echo', headers=hosts + [('Content-Length', str(len(body)))], body=body), 'wf-length')]
+        for data, kind in wf:
+            offs = list(range(1, len(data))) if (kind == 'wf-chunked' or tier != 'quick') else \
+                sorted(set(rng.sample(range(1, len(data)), 12) + list(range(len(data) - len(body) - 2, len(data)))))
+            for off in offs:
+                cases.append({'secure': False, 'cls': kind, 'expect': 'one-message',
+                              'ops': [['r', 0, l1(data[:off]), 'mut'], ['r', 0, l1(data[off:]), 'mut'], ['d', 0]]})
+            cases.append({'secure': False, 'cls': kind + '-bytewise', 'expect': 'one-message',
+                          'ops': [['r', 0, l1(data[i:i + 1]), 'mut'] for i in range(len(data))]})
+            for _ in range(3 if tier == 'quick' else 12):
+                cases.append({'secure': False, 'cls': kind + '-multicut', 'expect': 'one-message',
+                              'ops': [['r', 0, l1(c), 'mut'] for c in cut_n(rng, data, rng.randint(2, 5))]})
+            if kind == 'wf-chunked':
+                head_end = data.find(b'\r\n\r\n') + 4
+                p, ends = head_end, []
+                while True:                       # offsets just behind each chunk-size line and each chunk's CRLF
+                    j = data.find(b'\r\n', p)
+                    if j < 0:
+                        break
+                    ends.append(j + 2)
+                    p = j + 2
+                for off in [e for e in ends if e < chunked_tail_start(data)]:
+                    cases.append({'secure': False, 'cls': 'truncate-' + kind, 'expect': 'incomplete',
+                                  'ops': [['r', 0, l1(data[:off]), 'mut'], ['d', 0]]})
+        n = max(n, len(cases) + 400)
         while len(cases) < n:
             kind = rng.choice(MUTATIONS)
             data, exp = mutate(rng, kind)
@@ -1085,6 +1165,8 @@ class C14(Prop):
                     return 'retained-parser: %s: parser state for the connection is retained after disconnect' % where
                 if s['state'][1]:
                     return '%s: request/response state for the connection is retained after disconnect' % where
+                if s.get('anywhere'):
+                    return '%s: the connection is still a key / member of a container attribute of the component after disconnect' % where
                 continue
             if len(disp) + len(rej) > 1:
                 return '%s: %d request events and %d rejections for one read' % (where, len(disp), len(rej))
@@ -1116,6 +1198,20 @@ class C14(Prop):
                         case['expect'], where, case['expect'], case.get('cls'))
                 if case['expect'] == 'malformed' and resp and resp[0][1] < 400:
                     return '%s: malformed message (%s) answered with status %d' % (where, case.get('cls'), resp[0][1])
+        if case.get('expect') == 'one-message':
+            nd = sum(len([e for e in s['effs'] if e[0] == 4]) for s in obs['steps'])
+            nr = sum(len([e for e in s['effs'] if e[0] == 1]) for s in obs['steps'])
+            nw = sum(len([e for e in s['effs'] if e[0] in (2, 7)]) for s in obs['steps'])
+            if nd and nr:
+                return 'one-message: a request event is dispatched for a message that is also rejected (%d dispatched, %d rejected; %s)' % (
+                    nd, nr, case.get('cls'))
+            if nd + nr > 1 or nw > 1:
+                return 'one-message: %d request events, %d rejections and %d responses for one message (%s)' % (nd, nr, nw, case.get('cls'))
+            first = [i for i, s in enumerate(obs['steps']) if any(e[0] == 4 for e in s['effs'])]
+            reads = [i for i, s in enumerate(obs['steps']) if s['op'][0] == 'r' and s['tag'] == 'mut']
+            if first and reads and first[0] < reads[-1] and case.get('cls', '').startswith('wf-'):
+                return 'one-message: the request event is dispatched at operation %d, before the last bytes of the message (operation %d) arrived (%s)' % (
+                    first[0], reads[-1], case.get('cls'))
         if obs['after_ping']:
             return 'events %r appear after the case has settled' % obs['after_ping']
         # connections that were disconnected last must have left nothing behind
